@@ -90,7 +90,7 @@ claims = {
          "byte composites are handled as &lit and plain, arrays and slices; both paths test [8,2048]; skips are exactly nosplit/const/-X/constant non-string expressions; the seed is read only by twelve reviewed functions and appendFlags is used only for the hash and -toolexec. "
          "Decides these clauses, not which expressions go/types marks constant nor the bytes of any binary.",
          "edge-fact and provenance checks on go/ssa; configuration read-set for the seed", "4 C09"),
- "C04": ("Decides sibling agreement between the build (printFile) and reverse (commandReverse): same format constant, Offset of the Position of CallExpr.Pos(), .go suffix, and the same derivation of the file-name operand (one known finding: cgo packages, F11); "
+ "C04": ("Decides sibling agreement between the build (printFile) and reverse (commandReverse): same format constant, Offset of the Position of CallExpr.Pos(), .go suffix, and the same derivation of the file-name operand (known finding F11: cgo packages); a call's line directive must be anchored at a token of the call itself (known finding F15: multi-line call chains are not reversed); "
          "names via hashWithPackage, fields via hashWithStruct, asm files with .s; every replacement pair is (hashed, original) and X.go:1 precedes X.go; reverseContent writes every line it reads before looking at the read error; exit status 1 exactly under !modified; "
          "all listed packages are visited and only !ToObfuscate ones skipped. Decides these agreements, not that compile-time offsets equal those of a fresh parse nor the round trip of any trace.",
          "site-vs-site operand provenance comparison and dominance on go/ssa", "4 C04"),
